@@ -42,6 +42,14 @@ def run(F, rep, tier):
     rep.undecided = UNDECIDED
     one_call_node(F, rep)
     arrow(F, rep)
+    # comments are insignificant - every comment is *a comment token* first: the Comment pattern matches `//` followed by anything
+    # up to the line break, the empty rest included (shared with C17)
+    import core
+    import c17
+    core.borrow(rep, lambda F_, r_: c17.run(F_, r_, "quick"), lambda o: o["rule"] == "TABLE" and o["key"] == "variable-tokens|Comment", F)
+    # a trailing expression means `ret` of it in every pass: the dependency fold sees the same mentions in both forms
+    import c11
+    core.borrow(rep, c11.dependency_visit, lambda o: o["rule"] == "VISIT-dep" and ("StatementExpression" in o["key"] or "|Ret." in o["key"]), F)
     implicit_ret(F, rep)
     loop_do(F, rep)
     newline_flag(F, rep)
